@@ -3,7 +3,6 @@ package engine
 import (
 	pikecache "github.com/vicanso/pike/cache"
 	pikecompress "github.com/vicanso/pike/compress"
-	pikeconfig "github.com/vicanso/pike/config"
 	pikelocation "github.com/vicanso/pike/location"
 	pikeserver "github.com/vicanso/pike/server"
 	pikestore "github.com/vicanso/pike/store"
@@ -34,5 +33,5 @@ func resetAll(cfg *Config) {
 // fresh process (pike never deletes profiles; the built-in bestCompression profile
 // may have been overridden by an earlier configuration).
 func resetCompressDefaults() {
-	pikecompress.Reset([]pikeconfig.CompressConfig{{Name: pikecompress.BestCompression, Levels: map[string]uint{"gzip": 9, "br": 6}}})
+	pikecompress.VerifFreshRegistry()
 }
